@@ -1650,7 +1650,8 @@ impl<'a> FnTr<'a> {
                 for (e, ex) in t.elems.iter().zip(exps) {
                     let (a, ta) = self.ex(e, env, st, ex)?;
                     terms.push(a);
-                    tys.push(if ta == Ty::IntLit { Ty::Int("i32") } else { ta });
+                    // builder O (I/O mode): an untyped literal component stays open (`(0x00, txp + 4)` against `(u8, i32)`)
+                    tys.push(if ta == Ty::IntLit && !self.reg.io.borrow().mode { Ty::Int("i32") } else { ta });
                 }
                 Ok((format!("({})", terms.join(", ")), Ty::Tuple(tys)))
             }
@@ -2125,6 +2126,7 @@ fn unify(a: &Ty, b: &Ty) -> Res<Ty> {
         (Ty::IntLit, Ty::Int(_)) => Ok(b.clone()),
         (Ty::Int(_), Ty::IntLit) => Ok(a.clone()),
         (Ty::Opt(x), Ty::Opt(y)) => Ok(Ty::Opt(Box::new(unify(x, y)?))),
+        (Ty::Tuple(xs), Ty::Tuple(ys)) if xs.len() == ys.len() => Ok(Ty::Tuple(xs.iter().zip(ys.iter()).map(|(x, y)| unify(x, y)).collect::<Res<Vec<_>>>()?)),
         _ if a == b => Ok(a.clone()),
         _ => Err(format!("type mismatch {:?} vs {:?}", a, b)),
     }
